@@ -74,3 +74,16 @@ Fixpoint urun (u : ustate) (ms : list msg) : option (ustate * list ceb) :=
           end
       end
   end.
+
+(* Successive instances of the daemon over one segment file (the first one cold, the later ones
+   over whatever their predecessor left there): every instance starts from [u_init] with the rate
+   it was given; the content of the segment is not an input of ShmUpdater::new. *)
+Fixpoint lives (ls : list (Z * list msg)) : option (list ceb) :=
+  match ls with
+  | [] => Some []
+  | (d, ms) :: rest =>
+      match urun (u_init d) ms, lives rest with
+      | Some (_, cs), Some cs' => Some (cs ++ cs')
+      | _, _ => None
+      end
+  end.
